@@ -129,8 +129,11 @@ func (ce *convergenceElem) activate() (successful, retry bool) {
 			"error":     claErr,
 		}).Info("Failed to start CLA")
 
-		if claRetry {
+		if claRetry && atomic.LoadInt32(&ce.ttl) > 0 {
+			// Never count below zero: a negative ttl encodes an active CLA, which a failing permanent CLA is not.
 			atomic.AddInt32(&ce.ttl, -1)
+		} else if claRetry {
+			atomic.StoreInt32(&ce.ttl, 0)
 		} else {
 			atomic.StoreInt32(&ce.ttl, 0)
 		}
